@@ -313,27 +313,41 @@ impl<'a, F: Family> Cx<'a, F> {
                 });
                 match r {
                     Ok(h) => {
-                        if matches!(expect, Expect::Panic) && !faulty {
-                            // accepted although the iterator misreported: the per-step checks
-                            // below will show wrong contents if any; flag the missing refusal
-                            // only where the lie was constant and visible to the constructor.
-                            violation(
-                                "missing-refusal",
-                                format!("`{}` returned a handle although the iterator misreported its length / elements are zero-sized", what),
-                            );
-                        }
+                        let _ = faulty;
                         let class = match op.code {
                             OpCode::HsIter => Class::Hs,
                             OpCode::FatIter | OpCode::ThinIter => Class::Fat,
                             _ => Class::Sl,
                         };
-                        let mut a = self.slice_alloc(class, n, hid, with_header && zst_h, ids, &what);
+                        // A constructor is allowed to cope with a misreporting iterator instead of
+                        // refusing it ("at worst a propagated panic"): then the handle must hold a
+                        // prefix of what the iterator really yielded, and nothing uninitialised.
+                        let mut n_eff = n;
+                        let mut exp = Exp { new_live: 1, ..Exp::default() };
+                        let mut ids = ids;
+                        if !matches!(expect, Expect::Ok) && !F::E::ZST {
+                            let v = h.view(false, false);
+                            if let Some((lo, hi)) = v.elem_range {
+                                n_eff = (hi - lo) / F::E::SIZE;
+                            }
+                            if n_eff > n {
+                                violation(
+                                    "uninit-exposed",
+                                    format!("`{}`: the iterator yielded {} element(s) but the handle exposes {} slot(s): the extra ones were never written", what, n, n_eff),
+                                );
+                            }
+                            if F::E::TRACKED {
+                                exp.drops.extend(ids[n_eff..].iter().copied().filter(|i| *i != 0));
+                            }
+                            ids.truncate(n_eff);
+                        }
+                        let mut a = self.slice_alloc(class, n_eff, hid, with_header && zst_h, ids, &what);
                         if class == Class::Fat {
-                            a.hlen = Some(rec);
+                            a.hlen = Some(if op.code == OpCode::ThinIter { n_eff } else { rec });
                         }
                         let ai = self.push_alloc(a);
                         self.put(dst, Slot { h, ai });
-                        Done(Exp { new_live: 1, ..Exp::default() })
+                        Done(exp)
                     }
                     Err(p) => {
                         let specified = !matches!(expect, Expect::Ok);
